@@ -62,8 +62,8 @@ def shards(tier):
                 out.append({"part": "bfs", "init": init, "prefix": [op], "depth": 2 if not big else 3})
     # long periodic frames: sizes at which NumPy switches sorting algorithm (stability is size-dependent there)
     for kind in KINDS:
-        for length in ([17, 40] if not big else [17, 40, 130, 300]):
-            out.append({"part": "long", "kind": kind, "length": length, "period": 3 if not big else 4})
+        for length in ([17, 40, 1025] if not big else [17, 40, 130, 300, 1025, 65537]):
+            out.append({"part": "long", "kind": kind, "length": length, "period": (3 if not big else 4) if length < 1000 else 2})
     return out
 
 
